@@ -11,7 +11,11 @@ Inductive xi :=
 | XAlu (w op reg rm : Z)              (* [REX.W] op /r, register-direct: emit_alu32 / emit_alu64 / emit_mov *)
 | XAluI32 (w op ext rm imm : Z)       (* [REX.W] op /ext id *)
 | XAluI8 (w op ext rm imm : Z)        (* [REX.W] op /ext ib *)
-| XLoadImm (r imm : Z).               (* emit_load_imm *)
+| XLoadImm (r imm : Z)                (* emit_load_imm *)
+| XLoad (size base reg disp : Z)      (* emit_load: movzx / mov reg, [base + disp] *)
+| XStore (size reg base disp : Z)     (* emit_store: mov [base + disp], reg *)
+| XStoreImm (size base disp imm : Z)  (* emit_store_imm32: mov [base + disp], imm *)
+| XLockAdd (w reg base disp : Z).     (* lock add [base + disp], reg *)
 
 Definition regs := Z -> Z.
 Definition rset (R : regs) (r v : Z) : regs := fun x => if x =? r then v else R x.
@@ -57,6 +61,7 @@ Definition xstep (x : xi) (R : regs) : option regs :=
   | XAluI8 w op ext rm imm =>
     if op =? 0xc1 then shift w R ext rm (imm mod 256) else None
   | XLoadImm r imm => Some (rset R r (imm mod 2 ^ 64))
+  | _ => None
   end.
 
 Fixpoint xrun (l : list xi) (R : regs) : option regs :=
@@ -97,4 +102,23 @@ Definition xcond (x : xi) (code : Z) (R : regs) : option bool :=
     else if code =? 0x8c then Some (sgnw W l <? sgnw W r)     (* jl *)
     else if code =? 0x8e then Some (sgnw W l <=? sgnw W r)    (* jle *)
     else None
+  end.
+
+(** ** memory instructions: the access made (kind 0 = load, 1 = store, 2 = atomic add), as in ClirSem.claccess.  The
+    effective address is base + sign-extended displacement modulo 2^64; loads of less than 8 bytes zero-extend (movzx, or a
+    32-bit mov); `mov m64, imm32` stores the sign-extended immediate *)
+Record xaccess := { x_kind : Z; x_bytes : Z; x_addr : Z; x_val : Z; x_target : Z }.
+Definition xaccess_of (x : xi) (R : regs) : option xaccess :=
+  match x with
+  | XLoad size base reg d => Some {| x_kind := 0; x_bytes := size / 8; x_addr := (R base + d) mod 2 ^ 64; x_val := 0; x_target := reg |}
+  | XStore size reg base d => Some {| x_kind := 1; x_bytes := size / 8; x_addr := (R base + d) mod 2 ^ 64; x_val := R reg mod 2 ^ size; x_target := 16 |}
+  | XStoreImm size base d imm => Some {| x_kind := 1; x_bytes := size / 8; x_addr := (R base + d) mod 2 ^ 64; x_val := imm mod 2 ^ size; x_target := 16 |}
+  | XLockAdd w reg base d => Some {| x_kind := 2; x_bytes := opw w / 8; x_addr := (R base + d) mod 2 ^ 64; x_val := R reg mod 2 ^ opw w; x_target := 16 |}
+  | _ => None
+  end.
+Fixpoint xrun_mem (l : list xi) (R : regs) : option xaccess :=
+  match l with
+  | [] => None
+  | [x] => xaccess_of x R
+  | x :: l' => match xstep x R with Some R' => xrun_mem l' R' | None => None end
   end.
